@@ -108,6 +108,11 @@ func c18Make(kind string, id int32, msg string, cause int) error {
 			panic("c18Make: FastRead into a protocol exception failed: " + err.Error())
 		}
 		return pe
+	case "plain-mutable":
+		n := new(int)
+		*n = 1
+		c18Mutables = append(c18Mutables, n)
+		return mutableCause{n}
 	case "protocol-with-mutable-cause":
 		n := new(int)
 		*n = 1
@@ -118,7 +123,7 @@ func c18Make(kind string, id int32, msg string, cause int) error {
 	panic("c18Make")
 }
 
-var c18Kinds = []string{"transport", "protocol", "protocol-with-cause", "application", "foreign", "plain", "foreign-embeds-application", "foreign-embeds-transport", "foreign-embeds-protocol", "plain-formatter", "foreign-formatter", "protocol-reused-as-decode-target", "protocol-with-mutable-cause"}
+var c18Kinds = []string{"transport", "protocol", "protocol-with-cause", "application", "foreign", "plain", "foreign-embeds-application", "foreign-embeds-transport", "foreign-embeds-protocol", "plain-formatter", "foreign-formatter", "protocol-reused-as-decode-target", "protocol-with-mutable-cause", "plain-mutable"}
 
 // user error types that embed one of the library's exceptions (and so inherit its methods) but are types of their own,
 // with their own type id
@@ -162,8 +167,11 @@ type mutableCause struct{ n *int }
 
 func (m mutableCause) Error() string { return fmt.Sprintf("attempt %d failed", *m.n) }
 
+// counters behind the texts of the mutable errors handed out by c18Make (bumped after PrependError returned)
+var c18Mutables []*int
+
 func c18Family(kind string) string {
-	if kind == "plain-formatter" {
+	if kind == "plain-formatter" || kind == "plain-mutable" {
 		return "plain"
 	}
 	if strings.HasPrefix(kind, "foreign") {
@@ -221,6 +229,22 @@ func c18Prepend(c *mc.Ctx, k c18Case) {
 			bad(cls, "error text %q, want prefix + original text = %q", got.Error(), wantText)
 			return
 		}
+		// the text of the result is fixed when PrependError returns: it does not follow later changes of the original's text
+		for _, n := range c18Mutables {
+			*n += 10
+		}
+		c18Mutables = c18Mutables[:0]
+		if got.Error() != wantText {
+			bad("result-follows-original", "the text of the returned error changed when the original error's text changed afterwards: %q, want %q", got.Error(), wantText)
+			return
+		}
+		// prepending to a result of PrependError gives a new error and leaves the first result as it was
+		got2 := thrift.PrependError("outer: ", got)
+		got3 := thrift.PrependError("other: ", got)
+		if got2 == nil || got3 == nil || got2.Error() != "outer: "+wantText || got3.Error() != "other: "+wantText || got.Error() != wantText {
+			bad("nested-prepend", "prepending twice to a result of PrependError: first result now %q (want %q), second %q (want %q), third %q (want %q)", got.Error(), wantText, got2, "outer: "+wantText, got3, "other: "+wantText)
+			return
+		}
 		// a later, unrelated PrependError must not change an error returned earlier (no shared scratch memory)
 		thrift.PrependError("another prefix that is fairly long: ", thrift.NewProtocolException(3, "another message, also fairly long, to overwrite any shared buffer"))
 		thrift.PrependError("x", errors.New("y"))
@@ -228,8 +252,8 @@ func c18Prepend(c *mc.Ctx, k c18Case) {
 			bad("result-changed-later", "the text of the returned error changed after a later PrependError call: %q, want %q", got.Error(), wantText)
 			return
 		}
-		if again := thrift.PrependError(k.Prefix, in); again == nil || again.Error() != wantText {
-			bad("argument-modified", "a second PrependError on the same error gives %q, want %q", again, wantText)
+		if again := thrift.PrependError(k.Prefix, in); again == nil || again.Error() != k.Prefix+in.Error() {
+			bad("argument-modified", "a second PrependError on the same error gives %q, want %q", again, k.Prefix+in.Error())
 			return
 		}
 		kind := c18Family(k.Kind)
